@@ -94,6 +94,7 @@ def correspondence(rep, rng, tier):
             sec['distinct_nontrivial'] += 1
             rep.add_failure('host:' + tname, 'code %d: on this host %r, with Darwin tables %r' % (code, a, b),
                             {'section': 'host-vs-darwin', 'case': c, 'table': tname, 'code': code})
+    scramble_search(rep, rng, tier)
     if rep.broken or tier == 'thorough':       # the theorems rule a new dependence out; search only when they no longer check
         targeted_search(rep, diffs, tier, ht)
         if rep.broken and not any(f['signature'].startswith('host:new-dependence') for f in rep.failures):
@@ -134,6 +135,56 @@ def correspondence(rep, rng, tier):
         else:
             rep.add_failure('host:' + reason, 'decoder %s: %r on this host, %r with Darwin tables' % (n, a, b),
                             {'section': 'table-swap', 'case': c, 'table': reason})
+
+
+def scramble_search(rep, rng, tier):
+    """A host dependence NOBODY listed: every registered decoder on windows that put every small number (protocol numbers,
+    option levels, flag words, descriptors: 0..300 in the first tier that escalates, fewer otherwise) into every START / END
+    position, rendered on this host and in a fresh interpreter that is another host in every respect EXCEPT the five known
+    tables (`hostproc scrambled`: the platform modules' integer constants rotated within their name prefix, the message
+    functions and platform names changed).  Any difference is a read of the host outside the known readers."""
+    from .. import neighbours
+    sec = rep.section('host-scramble')
+    grid = list(range(0, 8)) + [17, 41, 255, 0xffff] if tier == 'quick' and not rep.broken else \
+        list(range(0, 301)) + [0xffff, 0x10000, (1 << 32) - 1]
+    names = D.all_handler_names()
+    if len(grid) > 100:
+        # the full grid only for decoders that render differently somewhere on the thin grid first would miss a sparse table:
+        # keep the full grid for all BSC_/MSC_ decoders (the ones that take numeric arguments from user space)
+        names_full = [n for n in names if n.startswith(('BSC_', 'MSC_'))]
+    else:
+        names_full = names
+    sec['rule'] = ('%d decoders x 8 START/END positions x %d small numbers, this host vs. `hostproc scrambled` (all platform '
+                   'constants rotated except errno.errorcode / Signals / AddressFamily / SocketKind / SOL_SOCKET)'
+                   % (len(names_full), len(grid)))
+    items = []
+    for n in names_full:
+        base = D.make_case(rng, n)
+        for pos in range(8):
+            for v in grid:
+                c = dict(base, start=list(base['start']), end=list(base['end']))
+                if pos < 4:
+                    c['start'][pos] = v
+                else:
+                    c['end'][pos - 4] = v
+                items.append((n, pos, v, c))
+    new_for = set()
+    step = 40000
+    for i in range(0, len(items), step):
+        part = items[i:i + step]
+        A = host_texts([it[3] for it in part])
+        B = neighbours.texts([it[3] for it in part], 'scrambled')
+        for (n, pos, v, c), a, b in zip(part, A, B):
+            sec['cases'] += 1
+            if a == b:
+                continue
+            sec['distinct_nontrivial'] += 1
+            if n not in new_for:
+                new_for.add(n)
+                rep.add_failure('host:new-dependence:' + n,
+                                'decoder %s, %s word %d = %d: %r on this host, %r on a host whose platform constants differ '
+                                '(the five known tables unchanged)' % (n, 'START' if pos < 4 else 'END', pos % 4, v, a, b),
+                                {'section': 'host-scramble', 'case': c})
 
 
 def candidates():
@@ -282,6 +333,15 @@ def replay(path):
             print(f'VIOLATION property=C18 replay={path}')
         return 1 if bad else 0
     c = r['replay']['case']
+    if r['replay'].get('section') == 'host-scramble':
+        from .. import neighbours
+        a, b = run(c), neighbours.texts([c], 'scrambled')[0]
+        print('this host                                   :', a)
+        print('host with other platform constants (scrambled):', b)
+        if a != b:
+            print(f'VIOLATION property=C18 replay={path}')
+            return 1
+        return 0
     a = run(c)
     b = darwin_texts([c])[0]
     print('host  :', a)
